@@ -6,6 +6,11 @@ Import ListNotations.
 From Cffi Require Import C37.Model C37.Proofs.
 Open Scope Z_scope.
 
+(* Scope: every operation goes THROUGH the lib object.  Calling a function object, or dereferencing
+   a pointer, that the user fetched before the close and kept (f = lib.fn; dlclose; f()) is not an
+   operation of the model: the property text excludes it ("fetching a function not fetched before
+   the close") and the documentation calls it undefined. *)
+
 (* After ffi.dlclose(lib l), at every later point of every history (whatever was cached before,
    whatever happened to the other lib objects), every variable read, variable write, function
    fetch and function call through lib l is refused (ValueError in-line / ffi.error
